@@ -92,7 +92,7 @@ func genContFile(c *core.Ctx, i int, codecIdx int, maxRecs int) *contFile {
 		for k := range sync {
 			sync[k] = byte(r.IntN(256))
 		}
-		f, err := refavro.WriteContainer([]byte(ds.S.JSON()), ds.S, blocks, &gen.RandChooser{R: r, Style: r.IntN(4)}, refavro.WriteOpts{Codec: codec, Sync: sync, MetaCodecFirst: r.IntN(2) == 0, MetaBlocks: 1 + r.IntN(2)*r.IntN(3)})
+		f, err := refavro.WriteContainer([]byte(ds.S.JSON()), ds.S, blocks, &gen.RandChooser{R: r, Style: r.IntN(4)}, refavro.WriteOpts{MetaSized: i%5 == 3, Codec: codec, Sync: sync, MetaCodecFirst: r.IntN(2) == 0, MetaBlocks: 1 + r.IntN(2)*r.IntN(3)})
 		if err != nil {
 			panic(err)
 		}
